@@ -203,6 +203,31 @@ impl<Key> AnyObject<Key> where Key: Copy + Eq + Hash {
     //@end
 }
 
+// ---- entry kind "one specific object with the given services" (aldrin/src/discoverer/specific_with_services.rs) ----------
+//@item aldrin/src/discoverer/specific_with_services.rs struct SpecificObjectWithServices
+
+impl<Key> SpecificObjectWithServices<Key> where Key: Copy + Eq + Hash {
+    // losing one of the required services un-reports the object (one Destroyed event if it was reported); a service the
+    // entry does not require, or one of another object, changes nothing
+    //@fn aldrin/src/discoverer/specific_with_services.rs SpecificObjectWithServices::service_destroyed
+        requires
+            (id.object_id.uuid == old(self).object && old(self).services@.contains_key(id.uuid))
+                ==> old(self).services@[id.uuid] == Some(id.cookie),
+        ensures
+            final(self).key == old(self).key, final(self).object == old(self).object,
+            final(self).services@.dom() == old(self).services@.dom(),
+            !(id.object_id.uuid == old(self).object && old(self).services@.contains_key(id.uuid)) ==> r is None
+                && final(self).services@ == old(self).services@ && final(self).cookie == old(self).cookie,
+            (id.object_id.uuid == old(self).object && old(self).services@.contains_key(id.uuid)) ==> {
+                &&& final(self).services@[id.uuid] is None
+                &&& forall|su: ServiceUuid| #![trigger final(self).services@[su]] su != id.uuid && old(self).services@.contains_key(su) ==> final(self).services@[su] == old(self).services@[su]
+                &&& final(self).cookie is None
+                &&& (r is Some) == (old(self).cookie is Some)
+                &&& r is Some ==> r->Some_0.key == old(self).key && r->Some_0.kind == DiscovererEventKind::Destroyed && r->Some_0.object == id.object_id
+            },
+    //@end
+}
+
 } // verus!
 
 fn main() {}
